@@ -159,12 +159,15 @@ let do_fwd id ins outs =
     let qname = bytes_of_token (List.hd rest') in
     let dom_of d = if d = "-" then None else Some (bytes_of_token (String.sub d 1 (String.length d - 1))) in
     let fs = List.fold_left (fun acc (d, u) -> fwd_set acc (new_fwd (dom_of d) (z_of_int u))) [] fl in
-    let model = String.concat "," (List.map (fun z -> string_of_int (int_of_z z)) (fwd_resolve fs qname)) in
+    (* upstreams 5 and 6 are dead (nothing listens): the query is lost there and must reach nobody else *)
+    let live l = List.filter (fun z -> int_of_z z < 5) l in
+    let show l = (match live l with [] -> "none" | l' -> String.concat "," (List.map (fun z -> string_of_int (int_of_z z)) l')) in
+    let model = show (fwd_resolve fs qname) in
     (* spec over label lists: the configured entries in their final order (after Set's replacement) *)
     let sfs = List.map (fun f -> ((match f.f_domain with [] -> None | d -> Some (split_dots d [])), f.f_up)) fs in
-    let spec = string_of_int (int_of_z (spec_get sfs (split_dots qname []))) in
+    let spec = show [spec_get sfs (split_dots qname [])] in
     let impl = List.hd outs in
-    let tag = (if model = "0" then "default" else "fwd") ^ (if List.exists (fun (d,_) -> d = "-") fl then "+nodomain" else "") in
+    let tag = (if model = "0" then "default" else if model = "none" then "fwd-dead" else "fwd") ^ (if List.exists (fun (d,_) -> d = "-") fl then "+nodomain" else "") in
     if impl <> spec then verdict "fwd" id "spec:C10" tag (Printf.sprintf "impl=%s spec=%s model=%s" impl spec model)
     else if impl <> model then verdict "fwd" id "diff" tag (Printf.sprintf "impl=%s model=%s" impl model)
     else verdict "fwd" id "ok" tag ""
@@ -934,6 +937,47 @@ let do_ci id ins outs =
     else if res = m then verdict "ci" id "ok" tag "" else verdict "ci" id "diff" tag (Printf.sprintf "impl=%s model=%s" res m)
   | _ -> verdict "ci" id "diff" "malformed-line" ""
 
+(* cis <id> <nprof> (<entry> <idhex>)* (<iptext>;<ip16>;<ipnorm>;<mac>;<byaddr>;<bymac>)+ => (<id>/<ip>/<model>/<name>/<profile>/<freshid>)+
+   one daemon lifetime, several clients: the id sent for a client depends on its profile and device only *)
+let do_cis id ins outs =
+  match ins with
+  | nstr :: rest ->
+    let n = int_of_string nstr in
+    let rec take k l acc = if k = 0 then (List.rev acc, l) else
+        (match l with e :: i :: r -> take (k-1) r ((e, i) :: acc) | _ -> failwith "cis line") in
+    let (el, qs) = take n rest [] in
+    let mk (e, i) =
+      let pid = bytes_of_token i in
+      let body = String.sub e 1 (String.length e - 1) in
+      match e.[0] with
+      | 'P' -> let j = String.index body '/' in
+        let ip = bytes_of_token (String.sub body 0 j) and bits = int_of_string (String.sub body (j+1) (String.length body - j - 1)) in
+        { pr_id = pid; pr_prefix = Some { c_ip = ip; c_bits = z_of_int bits }; pr_mac = []; pr_dest = [] }
+      | _ -> { pr_id = pid; pr_prefix = None; pr_mac = []; pr_dest = [] } in
+    let ps = List.fold_left (fun acc x -> pset acc (mk x)) [] el in
+    let lst s = if s = "-" then [] else List.map bytes_of_token (String.split_on_char ',' s) in
+    let problems = ref [] and specs = ref [] in
+    (if List.length qs <> List.length outs then problems := ["result count"] else
+    List.iteri (fun k (q, o) ->
+      match String.split_on_char ';' q, String.split_on_char '/' o with
+      | [ipt; ip16; ipn; mac; ba; bm], [iid; iip; imodel; iname; iprof; ifresh] ->
+        let macb = if mac = "-" then None else Some (bytes_of_token mac) in
+        let c = { cl_src = Some (bytes_of_token ipn); cl_dst = Some [bytes_tab.(127); bytes_tab.(0); bytes_tab.(0); bytes_tab.(1)];
+                  cl_mac = (match macb with Some m -> m | None -> []) } in
+        let prof = pget ps c in
+        let ci = lan_client_info prof (bytes_of_token ipt) (bytes_of_token ip16) macb (lst ba) (lst bm) in
+        let m = String.concat "/" [hexs ci.ci_id; hexs ci.ci_ip; hexs ci.ci_model; hexs ci.ci_name; hexs prof] in
+        let i = String.concat "/" [iid; iip; imodel; iname; iprof] in
+        if iid <> ifresh then specs := Printf.sprintf "client %d (profile %s): id sent is %s, the id of this profile and device computed on its own is %s" k
+              (string_of_bytes (bytes_of_token iprof)) (string_of_bytes (bytes_of_token iid)) (string_of_bytes (bytes_of_token ifresh)) :: !specs
+        else if i <> m then problems := Printf.sprintf "client %d impl=%s model=%s" k i m :: !problems
+      | _ -> problems := "malformed client" :: !problems) (List.combine qs outs));
+    let tag = Printf.sprintf "p%d/q%d" n (List.length qs) in
+    if !specs <> [] then verdict "cis" id "spec:C14" tag (String.concat "; " (List.rev !specs))
+    else if !problems <> [] then verdict "cis" id "diff" tag (String.concat "; " (List.rev !problems))
+    else verdict "cis" id "ok" tag ""
+  | _ -> verdict "cis" id "diff" "malformed-line" ""
+
 (* hdr <id> <reporting> <id> <ip> <model> <name> => <resolved> <nreq> <headers> *)
 let do_hdr id ins outs =
   match ins, outs with
@@ -963,6 +1007,7 @@ let () =
       | "rhist" :: id :: rest -> let (i, o) = split_arrow rest in do_rhist id i o
       | "fault" :: id :: rest -> let (i, o) = split_arrow rest in do_fault id i o
       | "sid" :: id :: rest -> let (i, o) = split_arrow rest in do_sid id i o
+      | "cis" :: id :: rest -> let (i, o) = split_arrow rest in do_cis id i o
       | "ci" :: id :: rest -> let (i, o) = split_arrow rest in do_ci id i o
       | "hdr" :: id :: rest -> let (i, o) = split_arrow rest in do_hdr id i o
       | "cfg" :: id :: rest -> let (i, o) = split_arrow rest in do_cfg id i o
